@@ -3,6 +3,7 @@ import Tengo.Model.VM
 import Tengo.Model.VerifyProg
 import Tengo.Model.RelocCheck
 import Tengo.Model.RenumCheck
+import Tengo.Model.DedupVM
 import Tengo.Model.Optimizer
 import Tengo.Proofs.C03Twin
 import Tengo.Drivers.C01
@@ -223,7 +224,11 @@ def handleRenum : List Sexp → String
         else if checkRenum code code' tab starts then
           let nfn := (idxs.filter (fun idx => (code.fn idx).isSome)).length
           let nst := sts.foldl (fun n t => n + t.length) 0
-          s!"ok {nfn} {nst}"
+          -- is this very pair covered by the universal theorem (Tengo.Props.C12Univ.covered_renum)?
+          let pre := checkDedupPre id code
+          let fl := floatsDistinctB code
+          let om := outputIsModel id code code' tab
+          s!"ok {nfn} {nst} {if pre then 1 else 0} {if fl then 1 else 0} {if om then 1 else 0}"
         else if tab.length != code.consts.size then "fail tab"
         else if !fnShapeB code.main code'.main then "fail main"
         else
